@@ -26,6 +26,9 @@ def scale(  # pylint: disable=dangerous-default-value  # always replaced by stat
     """
 
     data = numpy.array(data)
+    if data.dtype.kind in "iub":
+        # Squares of integers silently wrap around in integer arithmetic
+        data = data.astype(float)
 
     if "ddof" not in _state:
         _state["ddof"] = ddof
